@@ -570,6 +570,10 @@ def random_schedules(rng, n, flavour, max_steps=40):
             if flavour == "fault":
                 return rng.choice([{"do": "Kill", "i": rng.randrange(w)}, {"do": "Replace", "i": rng.randrange(w)},
                                    {"do": "Finish", "c": rng.randrange(nconn)}])
+            if flavour == "ready":
+                # application back-pressure: a service answers Pending (or fails) once; the worker goes Unavailable and back
+                return rng.choice([{"do": "PushReady", "i": rng.randrange(w), "t": rng.randrange(nl), "a": rng.choice([0, 0, 2])},
+                                   {"do": "WorkerPoll", "i": rng.randrange(w)}, {"do": "WorkerPoll", "i": rng.randrange(w)}])
             if flavour == "cmd":
                 return rng.choice([{"do": "Cmd", "x": "Pause"}, {"do": "Cmd", "x": "Resume"}, {"do": "Cmd", "x": "Resume"},
                                    {"do": "Inject", "l": rng.randrange(nl), "kind": rng.choice(["fatal", "conn", "enfile", "reset"])},
